@@ -3,6 +3,7 @@ package props
 import (
 	"fmt"
 	"go/ast"
+	"go/constant"
 	"go/token"
 	"go/types"
 	"os"
@@ -319,4 +320,42 @@ func retNonNilIfTested(atoms []eng.Atom, ret eng.Atom, info *types.Info, id *ast
 		}
 	}
 	return 0
+}
+
+// boolFlowFeasible: with a bool-valued helper inlined, a path on which the helper returned the
+// constant true and the caller's test of that very call failed (or the reverse) is not a path
+// of the program.
+func boolFlowFeasible(info *types.Info, atoms []eng.Atom) bool {
+	ret := map[*ast.CallExpr]bool{} // inlined call -> constant it returned on this path
+	var frames []*ast.CallExpr
+	for _, a := range atoms {
+		switch a.Kind {
+		case "enter":
+			frames = append(frames, a.Call)
+		case "leave":
+			if len(frames) > 0 {
+				frames = frames[:len(frames)-1]
+			}
+		case "return":
+			if len(frames) > 0 {
+				if rs, ok := a.Node.(*ast.ReturnStmt); ok && len(rs.Results) == 1 {
+					if tv, ok := info.Types[rs.Results[0]]; ok && tv.Value != nil && tv.Value.Kind() == constant.Bool {
+						ret[frames[len(frames)-1]] = constant.BoolVal(tv.Value)
+					}
+				}
+			}
+		case "cond":
+			e := eng.Unparen(a.Node.(ast.Expr))
+			neg := false
+			if u, ok := e.(*ast.UnaryExpr); ok && u.Op == token.NOT {
+				e, neg = eng.Unparen(u.X), true
+			}
+			if c, ok := e.(*ast.CallExpr); ok {
+				if v, known := ret[c]; known && (v != neg) != a.Taken {
+					return false
+				}
+			}
+		}
+	}
+	return true
 }
